@@ -4,7 +4,7 @@ From Coq Require Import List NArith Arith Bool Lia.
 Import ListNotations.
 From Snaps Require Import Base.Bytes Base.Lines Base.Dec Base.Assoc.
 From Snaps Require Import Model.Frame Model.PathModel Model.Mode Model.Api.
-From Snaps Require Import Proofs.BytesP Proofs.LinesP Proofs.DecP Proofs.FrameP.
+From Snaps Require Import Proofs.BytesP Proofs.LinesP Proofs.DecP Proofs.FrameP Proofs.DiffDecisionP.
 
 #[global] Arguments header : simpl never.
 #[global] Arguments snapshot_path : simpl never.
@@ -40,8 +40,9 @@ Proof. apply last_last. Qed.
 
 Lemma drop_cr_snoc_not_cr l c : c <> cr -> drop_cr (l ++ [c]) = l ++ [c].
 Proof.
-  intros H. unfold drop_cr. rewrite rev_app_distr. cbn.
-  apply N.eqb_neq in H. now rewrite H.
+  intros H. induction l as [|x l IH]; cbn [app drop_cr].
+  - apply N.eqb_neq in H. now rewrite H.
+  - destruct (l ++ [c]) eqn:E; [now destruct l|]. now rewrite IH.
 Qed.
 
 Lemma digits_no_nl d : forallb is_digit d = true -> no_nl d.
@@ -157,7 +158,7 @@ Qed.
 Lemma beq_refl' a : beq a a = true. Proof. apply beq_refl. Qed.
 
 Lemma same_snap a text : same a (snap_of a text) text = true.
-Proof. destruct a; cbn [same snap_of]; unfold diff_empty; apply beq_refl. Qed.
+Proof. destruct a; cbn [same snap_of]; apply diff_empty_refl. Qed.
 
 Lemma get_prev_nil tid : get_prev tid [] = None.
 Proof. reflexivity. Qed.
